@@ -15,6 +15,12 @@
 
 using namespace mustache;
 template<int N> struct Ev { int payload; };
+// two event types whose names are a prefix of one another (types 4 and 5); which is seen first is up to the script
+struct EvP { int payload; };
+struct EvPx { int payload; };
+template<int N> struct EvSel { using type = Ev<N>; };
+template<> struct EvSel<4> { using type = EvP; };
+template<> struct EvSel<5> { using type = EvPx; };
 
 struct AnyReceiver { std::function<void()> unsubscribe; std::function<void()> destroy; std::function<void(EventManager&)> resubscribe; bool alive = true; };
 
@@ -22,15 +28,16 @@ static std::vector<int> g_delivered;
 
 template<int N>
 static AnyReceiver subscribe(EventManager& em, int rid) {
-    auto ptr = std::shared_ptr<Receiver<Ev<N>>>(em.subscribe<Ev<N>>([rid](const Ev<N>&) { g_delivered.push_back(rid); }).release());
-    auto holder = std::make_shared<std::shared_ptr<Receiver<Ev<N>>>>(ptr);
+    using E = typename EvSel<N>::type;
+    auto ptr = std::shared_ptr<Receiver<E>>(em.subscribe<E>([rid](const E&) { g_delivered.push_back(rid); }).release());
+    auto holder = std::make_shared<std::shared_ptr<Receiver<E>>>(ptr);
     AnyReceiver r;
     r.unsubscribe = [holder] { if (*holder) (*holder)->unsubscribe(); };
     r.destroy = [holder] { holder->reset(); };
-    r.resubscribe = [holder](EventManager& m) { if (*holder) m.subscribe_<Ev<N>>(holder->get()); };   // the same receiver object again
+    r.resubscribe = [holder](EventManager& m) { if (*holder) m.subscribe_<E>(holder->get()); };   // the same receiver object again
     return r;
 }
-template<int N> static void post(EventManager& em) { em.post(Ev<N>{N}); }
+template<int N> static void post(EventManager& em) { em.post(typename EvSel<N>::type{N}); }
 
 static void run_script(const std::vector<std::string>& lines) {
     MemoryManager memory;
@@ -50,7 +57,8 @@ static void run_script(const std::vector<std::string>& lines) {
             if (m < mgrs.size() && mgrs[m]) {
                 const int rid = int(recvs.size());
                 switch (t) { case 0: recvs.push_back(subscribe<0>(*mgrs[m], rid)); break; case 1: recvs.push_back(subscribe<1>(*mgrs[m], rid)); break;
-                             case 2: recvs.push_back(subscribe<2>(*mgrs[m], rid)); break; default: recvs.push_back(subscribe<3>(*mgrs[m], rid)); break; }
+                             case 2: recvs.push_back(subscribe<2>(*mgrs[m], rid)); break; case 3: recvs.push_back(subscribe<3>(*mgrs[m], rid)); break;
+                             case 4: recvs.push_back(subscribe<4>(*mgrs[m], rid)); break; default: recvs.push_back(subscribe<5>(*mgrs[m], rid)); break; }
                 printf("R r%d\n", rid);
             } else printf("R\n");
         }
@@ -62,7 +70,7 @@ static void run_script(const std::vector<std::string>& lines) {
             size_t m; int t; in >> m >> t;
             g_delivered.clear();
             if (m < mgrs.size() && mgrs[m]) {
-                switch (t) { case 0: post<0>(*mgrs[m]); break; case 1: post<1>(*mgrs[m]); break; case 2: post<2>(*mgrs[m]); break; default: post<3>(*mgrs[m]); break; }
+                switch (t) { case 0: post<0>(*mgrs[m]); break; case 1: post<1>(*mgrs[m]); break; case 2: post<2>(*mgrs[m]); break; case 3: post<3>(*mgrs[m]); break; case 4: post<4>(*mgrs[m]); break; default: post<5>(*mgrs[m]); break; }
             }
             printf("R");
             for (int r : g_delivered) printf(" r%d", r);
